@@ -218,6 +218,53 @@ where
     subs
 }
 
+/// Layers whose serialized query values exceed every small length prefix: folding factor 16 over wide extension
+/// elements with 127..255 distinct queried rows (up to 255 x 16 x 32 bytes = 130 560 bytes of values in one layer).
+pub fn large_layer_subs<E: Elt, H: ElementHasher<BaseField = E::BaseField> + 'static>(run: &Arc<Run>, hname: &'static str) -> Vec<Arc<dyn Sub>>
+where
+    E::BaseField: Fld,
+    H::Digest: 'static,
+{
+    let seed = run.seed();
+    let name = format!("{}/{}", E::tname(), hname);
+    let counts: Vec<usize> = vec![127, 128, 129, 171, 200, 255];
+    let c2 = counts.clone();
+    vec![sub_t(
+        &format!("{name}.large_layers"),
+        counts.len() as u64,
+        300,
+        true,
+        move |idx, out| {
+            let q = counts[idx as usize];
+            let cfg = Cfg { n: 4096, blowup: 8, k: 16, rem_deg: 15 };
+            let ctx = E::ctx();
+            let mut rng = kit::rng::Rng::labelled(seed, &format!("c15-large-{q}"));
+            let d = cfg.max_poly_degree();
+            let poly: Vec<El> = (0..=d).map(|_| rand_el(&mut rng, &ctx)).collect();
+            // evaluations over the coset through the library's own transform (C09 decides its correctness)
+            let coeffs: Vec<E> = from_refs(&poly);
+            let tw = math::fft::get_twiddles::<E::BaseField>(coeffs.len());
+            let evals: Vec<E> = math::fft::evaluate_poly_with_offset(&coeffs, &tw, <E::BaseField as math::StarkField>::GENERATOR, cfg.blowup);
+            // q positions that stay distinct after folding (the folded domain has 256 rows)
+            let pos: Vec<usize> = (0..q).map(|i| (i * 7) % 256 + 256 * (i % 16)).collect();
+            let mut prover = FriProver::<E::BaseField, E, _, H>::new(FriOptions::new(cfg.blowup, cfg.k, cfg.rem_deg));
+            for through_bytes in [false, true] {
+                out.evals(1);
+                let info = || json!({"field/hasher": name, "config": format!("{:?}", cfg), "queried_rows": q, "after_serialization": through_bytes});
+                match pan::catch(|| run_proof::<E, H>(&mut prover, &cfg, &evals, &pos, through_bytes)) {
+                    Ok(Ok(())) => out.nontrivial(),
+                    Ok(Err(e)) => out.violation(format!("{name}: an honest FRI proof with large layers is not accepted ({})", squeeze(&e)), info()),
+                    Err(pr) => {
+                        out.violation(format!("{name}: honest FRI proving/verification panics on large layers ({})", pr.class()), info());
+                        prover.reset();
+                    },
+                }
+            }
+        },
+        move |idx| json!({"queried_rows": c2[idx as usize], "config": "domain 4096, blowup 8, folding 16, remainder degree 15"}),
+    )]
+}
+
 fn squeeze(s: &str) -> String {
     let mut o = String::new();
     for c in s.chars() {
